@@ -203,7 +203,25 @@ func genC30(t *rapid.T) c30Case {
 			if rapid.IntRange(0, 11).Draw(t, "hoff") == 0 {
 				d.HeightOff = rapid.SampledFrom([]int{-1, 1}).Draw(t, "hoffv")
 			}
-			return opSpec{Kind: "deposit", Headers: []headerSpec{genHeader(c.Router, ver, true).Draw(t, "hdr")}, Dep: d}
+			hdr := genHeader(c.Router, ver, true).Draw(t, "hdr")
+			if rapid.IntRange(0, 3).Draw(t, "forgedepoch") == 0 {
+				// forged header at (or next to) the tracked epoch height: unsigned / under-signed / signed by foreign keys,
+				// its commit naming the stored epoch block hash, its own hash or a random one; proof against ITS app hash
+				hdr = headerSpec{Ver: hdr.Ver, Next: hdr.Next,
+					Rel:   rapid.SampledFrom([]int{0, 0, 0, 0, 1, -1}).Draw(t, "frel"),
+					Set:   rapid.SampledFrom([]int{-1, -1, 0, 1, 2}).Draw(t, "fset"),
+					CHash: rapid.SampledFrom([]string{"epoch", "epoch", "epoch", "", "other"}).Draw(t, "fchash")}
+				switch rapid.IntRange(0, 2).Draw(t, "fsigs") {
+				case 0:
+					hdr.Votes = []voteSpec{{Flag: "absent"}}
+				case 1:
+					hdr.Votes = []voteSpec{{Flag: "commit"}, {Flag: "absent"}, {Flag: "absent"}, {Flag: "absent"}, {Flag: "absent"}, {Flag: "absent"}, {Flag: "absent"}, {Flag: "absent"}, {Flag: "absent"}, {Flag: "absent"}}
+				case 2:
+					hdr.Votes = []voteSpec{{Flag: "commit", Signer: -1}}
+				}
+				d.Proof, d.KpEmpty, d.HeightOff = "exist", false, 0
+			}
+			return opSpec{Kind: "deposit", Headers: []headerSpec{hdr}, Dep: d}
 		}
 		return opSpec{Kind: "sync", Headers: rapid.SliceOfN(genHeader(c.Router, ver, false), 1, 3).Draw(t, "hdrs")}
 	})
@@ -271,6 +289,13 @@ func (r *runner) build(h headerSpec, st tracked) *built {
 	}
 	b := &built{ver: ver, content: setContent(set), height: st.Height + int64(h.Rel)}
 	p := &plan{ver: ver, height: b.height, cheight: b.height + int64(h.CHeight), chashOther: h.CHash == "other"}
+	if h.CHash == "epoch" {
+		// the commit merely NAMES the block hash stored in the epoch record
+		p.chashRaw = append([]byte{}, st.Block...)
+		if len(p.chashRaw) == 0 {
+			p.chashRaw = h32("no stored epoch hash")
+		}
+	}
 	p.chainID = st.ChainID
 	if h.Chain == "other" {
 		p.chainID = "chain-other"
@@ -297,6 +322,15 @@ func (r *runner) build(h headerSpec, st tracked) *built {
 		p.nvh = h32(fmt.Sprintf("unknown next validators %d", b.height))
 	} else {
 		p.nvh = r.rt.setHash(r.setAt(h.Next), ver)
+	}
+	if h.nvhSet {
+		p.nvh = h.nvhRaw
+	}
+	if h.vhEmpty {
+		p.vh = nil
+	}
+	if h.chainRaw != nil {
+		p.chainID = *h.chainRaw
 	}
 	b.nvh = p.nvh
 	b.sameVals = bytes.Equal(p.vh, p.nvh)
@@ -377,7 +411,8 @@ func (r *runner) build(h headerSpec, st tracked) *built {
 	// ---- construction facts for the oracle: who REALLY signed a precommit for this block
 	signed := map[int]bool{}
 	b.clean = h.VH == "" && h.CHash == "" && h.CHeight == 0 && ne == n && h.BadSet == ""
-	commitForThisBlock := h.CHash == "" && h.CHeight == 0
+	// the votes are precommits for THIS block only if the commit they belong to names this header's hash
+	commitForThisBlock := (h.CHash == "" || (p.chashRaw != nil && bytes.Equal(p.chashRaw, p.hdrHash))) && h.CHeight == 0
 	anyEntry := false
 	for i, v := range p.votes {
 		if v.CopyOf > 0 {
@@ -953,7 +988,7 @@ func TestC30(t *testing.T) {
 	ev.Drive(t, "C30",
 		"cases: one router (cosmos legacy/protobuf block versions, okex, polygon-heimdall) in an L1 native world with the side chain registered through side_chain_manager and the trust root installed by syncGenesisHeader; "+
 			"2..4 synthetic validator sets (1..10 validators, equal / dominant / arbitrary powers up to 2^56), then 1..8 operations: syncBlockHeader with 1..3 headers or importOuterTransfer with a header and a rootmulti+IAVL proof; "+
-			"headers vary height (below/at/above tracked), presented set (trusted or other), next set, per-position votes (commit/nil/absent, forged / other-block / other-chain / wrong-time signatures, foreign signer, copied entries, heimdall validator-index shifts), commit hash/height, entry count, malformed sets; "+
+			"headers vary height (below/at/above tracked), presented set (trusted or other), next set, per-position votes (commit/nil/absent, forged / other-block / other-chain / wrong-time signatures, foreign signer, copied entries, heimdall validator-index shifts), commit hash (own / random / the stored epoch block hash) and height, entry count, malformed sets; forged unsigned / under-signed / foreign-signed deposit headers at the tracked epoch height ±1; "+
 			"deposits vary proof kind (existence, wrong value, other key, absence, absence-shaped message with empty key path), app hash and param height. "+
 			"non-trivial: the history contains at least one accepted state advance AND (a header that reaches the tally stage with the signed power within one validator of the 2/3 line, OR a deposit submitted with an absence proof); distinct by JSON encoding of the case",
 		genC30, runC30)
